@@ -1,6 +1,7 @@
 (* C13 — all CLI views of pending work agree; history is append-only.
    Pinned statements only: each theorem is closed by [exact] of a lemma proved in Proofs/.
    Status per statement: (P) proved for all projects; (R) refuted on a concrete witness by computation —
+   (D6 and D7 were repaired in /repo: their former refutations are now the positive theorems below) —
    each (R) witness is replayed on the real binary by checks/c13.py (corpus/cli/c13_*.json). *)
 From VV.CLI Require Import Project ProjectP NamingP HistoryP.
 
@@ -79,27 +80,72 @@ Check C13_sql_prefix_refuted :
             /\ cmd_diff P = Ok DiffNone
             /\ exists v acts b, cmd_sql P = Ok (SqlRender v acts b) /\ acts <> [].
 
-(* ------------------------------------------------------------------ (R) status "synchronized" does not imply no diff (DESIGN D7) *)
-Theorem C13_status_refuted :
-  exists P, cmd_status P = Ok StSync
-            /\ cmd_diff P = Ok (DiffChanges [ModifyColumnNullable "user" "email" false None]).
-Proof. exact status_refuted. Qed.
-Print Assumptions C13_status_refuted.
-Check C13_status_refuted :
-  exists P, cmd_status P = Ok StSync
-            /\ cmd_diff P = Ok (DiffChanges [ModifyColumnNullable "user" "email" false None]).
+(* ------------------------------------------------------------------ (P) status "synchronized" iff diff finds nothing (D7 repaired by b3fae31) *)
+Theorem C13_status_sync_iff_no_diff : forall P,
+  (cmd_status P = Ok StSync -> cmd_diff P = Ok DiffNone)
+  /\ (forall plans, load_migrations P = Ok plans -> plans <> [] ->
+        (cmd_status P = Ok StSync <-> cmd_diff P = Ok DiffNone)
+        /\ (cmd_status P = Ok StDiffers <-> exists acts, cmd_diff P = Ok (DiffChanges acts))
+        /\ ((exists e, cmd_status P = Err e) <-> (exists e, cmd_diff P = Err e)))
+  /\ (load_migrations P = Ok [] -> forall models, load_models P = Ok models ->
+        cmd_status P = Ok (if is_nil models then StEmpty else StNoMigrations))
+  /\ (forall e, load_models P = Err e \/ (exists m, load_models P = Ok m /\ load_migrations P = Err e) ->
+        cmd_status P = Err e /\ cmd_diff P = Err e).
+Proof. exact status_sync_iff_no_diff. Qed.
+Print Assumptions C13_status_sync_iff_no_diff.
+Check C13_status_sync_iff_no_diff : forall P,
+  (cmd_status P = Ok StSync -> cmd_diff P = Ok DiffNone)
+  /\ (forall plans, load_migrations P = Ok plans -> plans <> [] ->
+        (cmd_status P = Ok StSync <-> cmd_diff P = Ok DiffNone)
+        /\ (cmd_status P = Ok StDiffers <-> exists acts, cmd_diff P = Ok (DiffChanges acts))
+        /\ ((exists e, cmd_status P = Err e) <-> (exists e, cmd_diff P = Err e)))
+  /\ (load_migrations P = Ok [] -> forall models, load_models P = Ok models ->
+        cmd_status P = Ok (if is_nil models then StEmpty else StNoMigrations))
+  /\ (forall e, load_models P = Err e \/ (exists m, load_models P = Ok m /\ load_migrations P = Err e) ->
+        cmd_status P = Err e /\ cmd_diff P = Err e).
+
+(* non-vacuity: the old D7 witness (nullability change only) is now reported; an unchanged model set is synchronized *)
+Example C13_status_nonvacuous :
+  cmd_status P_nullable = Ok StDiffers
+  /\ cmd_diff P_nullable = Ok (DiffChanges [ModifyColumnNullable "user" "email" false None])
+  /\ cmd_status (mkProject default_config (pj_models P_prefix) (pj_migrations P_prefix)) = Ok StSync
+  /\ cmd_diff (mkProject default_config (pj_models P_prefix) (pj_migrations P_prefix)) = Ok DiffNone.
+Proof. repeat split; vm_compute; reflexivity. Qed.
 
 (* ------------------------------------------------------------------ (P) log = what the macro builds the runtime from *)
+(* a history whose files all pass validate_migration_plan (what `revision` writes does, C13_revision_output_loadable):
+   no exception; log_view [] = LogNone ("No migrations found"), log_view es = LogEntries es otherwise *)
 Theorem C13_log_equals_runtime : forall P,
-  (forall es, cmd_log P = Ok (LogEntries es) ->
-     macro_blocks P = Ok es \/ exists e, macro_blocks P = Err (MacroModels e))
-  /\ (forall es, macro_blocks P = Ok es ->
-        cmd_log P = Ok (LogEntries es)
-        \/ (es = [] /\ cmd_log P = Ok LogNone)
-        \/ exists f e, cmd_log P = Err (ELoadMigration f e)).
+  validate_files (pj_migrations P) = Ok tt ->
+  (forall es, macro_blocks P = Ok es -> cmd_log P = Ok (log_view es))
+  /\ (exists es, cmd_log P = Ok (log_view es)
+                 /\ (macro_blocks P = Ok es \/ exists e, macro_blocks P = Err (MacroModels e))).
 Proof. exact log_equals_runtime. Qed.
 Print Assumptions C13_log_equals_runtime.
 Check C13_log_equals_runtime : forall P,
+  validate_files (pj_migrations P) = Ok tt ->
+  (forall es, macro_blocks P = Ok es ->
+     cmd_log P = Ok (match es with [] => LogNone | _ => LogEntries es end))
+  /\ (exists es, cmd_log P = Ok (match es with [] => LogNone | _ => LogEntries es end)
+                 /\ (macro_blocks P = Ok es \/ exists e, macro_blocks P = Err (MacroModels e))).
+
+Example C13_log_equals_runtime_nonvacuous :
+  validate_files (pj_migrations P_prefix) = Ok tt
+  /\ exists es, cmd_log P_prefix = Ok (LogEntries es) /\ macro_blocks P_prefix = Ok es
+             /\ map le_actions es = [[CreateTable "app_user" [col_id; col_email true] []]].
+Proof. split; [vm_compute; reflexivity|]. eexists. repeat split; vm_compute; reflexivity. Qed.
+
+(* (P) any history, hand-written files included: agreement up to the loaders' difference *)
+Theorem C13_log_equals_runtime_any_history : forall P,
+  (forall es, cmd_log P = Ok (LogEntries es) ->
+     macro_blocks P = Ok es \/ exists e, macro_blocks P = Err (MacroModels e))
+  /\ (forall es, macro_blocks P = Ok es ->
+        cmd_log P = Ok (LogEntries es)
+        \/ (es = [] /\ cmd_log P = Ok LogNone)
+        \/ exists f e, cmd_log P = Err (ELoadMigration f e)).
+Proof. exact log_equals_runtime_any_history. Qed.
+Print Assumptions C13_log_equals_runtime_any_history.
+Check C13_log_equals_runtime_any_history : forall P,
   (forall es, cmd_log P = Ok (LogEntries es) ->
      macro_blocks P = Ok es \/ exists e, macro_blocks P = Err (MacroModels e))
   /\ (forall es, macro_blocks P = Ok es ->
@@ -107,13 +153,8 @@ Check C13_log_equals_runtime : forall P,
         \/ (es = [] /\ cmd_log P = Ok LogNone)
         \/ exists f e, cmd_log P = Err (ELoadMigration f e)).
 
-Example C13_log_equals_runtime_nonvacuous :
-  exists es, cmd_log P_prefix = Ok (LogEntries es) /\ macro_blocks P_prefix = Ok es
-             /\ map le_actions es = [[CreateTable "app_user" [col_id; col_email true] []]].
-Proof. eexists. repeat split; vm_compute; reflexivity. Qed.
-
-(* (R) the exception in the statement above is real: the CLI loader validates stored plans, the macro's loader
-   does not; the file below is one `revision` itself writes (D6) *)
+(* (R) the exception above is real for a hand-written file (the CLI loader validates stored plans, the macro's does
+   not); `revision` no longer writes such a file *)
 Theorem C13_log_rejects_what_runtime_runs_refuted :
   exists P es, macro_blocks P = Ok es /\ List.length es = 2%nat /\ exists f e, cmd_log P = Err (ELoadMigration f e).
 Proof. exact log_rejects_what_runtime_runs_refuted. Qed.
@@ -220,20 +261,62 @@ Check C13_filename_pattern_refuted :
     /\ p_version p = 2%N
     /\ pj_migrations (step_revision P m f env) = [(file, p)].
 
-(* ------------------------------------------------------------------ (R) what revision writes is not always loadable (DESIGN D6) *)
-Theorem C13_revision_output_loadable_refuted :
+(* ------------------------------------------------------------------ (P) what revision writes can be loaded again (D6 repaired by 446c8b4) *)
+(* unfilled a = the action lacks a required fill_with (AddColumn NOT NULL without default, or NOT NULL change);
+   enum_free a = validate_migration_plan does not look at enum values for this action *)
+Theorem C13_revision_output_loadable : forall P m f env file p,
+  cmd_revision P m f env = Ok (RevWrote file p) ->
+  (forall a, In a (p_actions p) -> unfilled a = false)
+  /\ (validate_migration_plan p = Ok tt
+      \/ ((exists a, In a (p_actions p) /\ enum_free a = false)
+          /\ exists t c x, validate_migration_plan p = Err (VInvalidEnumDefault t c x)))
+  /\ ((forall a, In a (p_actions p) -> enum_free a = true) -> validate_migration_plan p = Ok tt).
+Proof. exact revision_output_loadable. Qed.
+Print Assumptions C13_revision_output_loadable.
+Check C13_revision_output_loadable : forall P m f env file p,
+  cmd_revision P m f env = Ok (RevWrote file p) ->
+  (forall a, In a (p_actions p) -> unfilled a = false)
+  /\ (validate_migration_plan p = Ok tt
+      \/ ((exists a, In a (p_actions p) /\ enum_free a = false)
+          /\ exists t c x, validate_migration_plan p = Err (VInvalidEnumDefault t c x)))
+  /\ ((forall a, In a (p_actions p) -> enum_free a = true) -> validate_migration_plan p = Ok tt).
+
+(* non-vacuity: the old D6 witness now gets the default as fill value, and every view works afterwards *)
+Example C13_revision_output_loadable_nonvacuous :
+  exists file p,
+    cmd_revision P_defaulted "tighten" [] env0 = Ok (RevWrote file p)
+    /\ p_actions p = [ModifyColumnNullable "user" "email" false (Some "'x'")]
+    /\ validate_migration_plan p = Ok tt
+    /\ cmd_diff (step_revision P_defaulted "tighten" [] env0) = Ok DiffNone
+    /\ cmd_status (step_revision P_defaulted "tighten" [] env0) = Ok StSync.
+Proof. do 2 eexists. split; [vm_compute; reflexivity|]. repeat split; vm_compute; reflexivity. Qed.
+
+(* (P) and the extended history stays loadable, so log keeps showing what the runtime runs *)
+Theorem C13_revision_keeps_history_loadable : forall P m f env file p,
+  cmd_revision P m f env = Ok (RevWrote file p) ->
+  validate_migration_plan p = Ok tt ->
+  validate_files (pj_migrations (step_revision P m f env)) = Ok tt
+  /\ exists plans, load_migrations (step_revision P m f env) = Ok plans.
+Proof. exact revision_keeps_history_loadable. Qed.
+Print Assumptions C13_revision_keeps_history_loadable.
+Check C13_revision_keeps_history_loadable : forall P m f env file p,
+  cmd_revision P m f env = Ok (RevWrote file p) ->
+  validate_migration_plan p = Ok tt ->
+  validate_files (pj_migrations (step_revision P m f env)) = Ok tt
+  /\ exists plans, load_migrations (step_revision P m f env) = Ok plans.
+
+(* (R) what remains: a --fill-with value for a new enum column is written without being checked *)
+Theorem C13_revision_enum_fill_unchecked_refuted :
   exists P m f env file p,
     cmd_revision P m f env = Ok (RevWrote file p)
-    /\ p_actions p = [ModifyColumnNullable "user" "email" false None]
-    /\ cmd_diff (step_revision P m f env) = Err (ELoadMigration file (VMissingFillWith "user" "email"))
-    /\ cmd_status (step_revision P m f env) = Err (ELoadMigration file (VMissingFillWith "user" "email"))
-    /\ cmd_log (step_revision P m f env) = Err (ELoadMigration file (VMissingFillWith "user" "email")).
-Proof. exact revision_output_loadable_refuted. Qed.
-Print Assumptions C13_revision_output_loadable_refuted.
-Check C13_revision_output_loadable_refuted :
+    /\ p_actions p = [AddColumn "user" ecol (Some "zzz")]
+    /\ validate_migration_plan p = Err (VInvalidEnumDefault "user" "st" "zzz")
+    /\ cmd_diff (step_revision P m f env) = Err (ELoadMigration file (VInvalidEnumDefault "user" "st" "zzz")).
+Proof. exact revision_enum_fill_unchecked_refuted. Qed.
+Print Assumptions C13_revision_enum_fill_unchecked_refuted.
+Check C13_revision_enum_fill_unchecked_refuted :
   exists P m f env file p,
     cmd_revision P m f env = Ok (RevWrote file p)
-    /\ p_actions p = [ModifyColumnNullable "user" "email" false None]
-    /\ cmd_diff (step_revision P m f env) = Err (ELoadMigration file (VMissingFillWith "user" "email"))
-    /\ cmd_status (step_revision P m f env) = Err (ELoadMigration file (VMissingFillWith "user" "email"))
-    /\ cmd_log (step_revision P m f env) = Err (ELoadMigration file (VMissingFillWith "user" "email")).
+    /\ p_actions p = [AddColumn "user" ecol (Some "zzz")]
+    /\ validate_migration_plan p = Err (VInvalidEnumDefault "user" "st" "zzz")
+    /\ cmd_diff (step_revision P m f env) = Err (ELoadMigration file (VInvalidEnumDefault "user" "st" "zzz")).
